@@ -5,9 +5,10 @@ import Oracle.Util
      ids  → kind=ids order=<vid,…> must=<vid,…> may=<vid,…> cls=<c,…>
      recs → kind=recs recs=<vid>{k=tv,…};… nsgrant=<vid>:<col>,…   (numeric strings whose OWN block holds a JSON number in that column)
      stats→ kind=stats rows=<k1\x1fk2>=<agg;agg>,…   (values exact rationals num/den)
-     tc   → kind=tchart rows=<cell start>:<series>=<agg;agg>,… [rows2=…] [rowsdev=…]   series: - (no by-field) | ~ (NULL series) | hex(key)
+     tc   → kind=tchart rows=<cell start>:<series>=<agg;agg>,… [rows2=…]   series: - (no by-field) | ~ (NULL series) | hex(key)
    history tokens `rq/<filter>` (a query run in the middle of the history, answer discarded) and query tokens `w` (wait
-   for the background persistent-query write) do not change the specification's answer. -/
+   for the background persistent-query write) and `pqcheck` (state of the back-fill queue, checked on the Go side) do not
+   change the specification's answer. -/
 namespace Oracle.E2E
 open SigModel.Spec Oracle
 
@@ -158,18 +159,9 @@ def numStrGrants (blocks : List (List Event)) : List (Nat × String) :=
 def showKey (k : List String) : String := "\x1f".intercalate k
 def hexOf (s : String) : String := bytesHex (s.toUTF8.toList.map (·.toNat))
 
-/-- does a free-text term sit under an odd number of NOTs -/
-def hasNegTerm : Filter → Bool → Bool
-  | .all, _ => false
-  | .term _, neg => neg
-  | .cmp _ _ _, _ => false
-  | .and a b, neg => hasNegTerm a neg || hasNegTerm b neg
-  | .or a b, neg => hasNegTerm a neg || hasNegTerm b neg
-  | .not a, neg => hasNegTerm a (!neg)
-
 /-- the specification's answer; `blocks` = the flushed events in their blocks (only the latitude `nsgrant` of `recs` depends
-on the blocks); `pqFilters` = the filters that were run INSIDE the history (tokens `rq/…`) with persistent-query results on -/
-def answerB (blocks : List (List Event)) (q : Query) (pqFilters : List String := []) : String :=
+on the blocks) -/
+def answerB (blocks : List (List Event)) (q : Query) : String :=
   let evs := blocks.flatten
   let inr := evs.filter (inRange q.start q.end_)
   let tri := inr.map (fun e => (e, evalFilter e q.filter))
@@ -177,11 +169,10 @@ def answerB (blocks : List (List Event)) (q : Query) (pqFilters : List String :=
   -- engine by the statement (`may`), but the engine's answer must not depend on the layout (two-layout cases;
   -- the class labels negation-over-sparse-field / number-and-text-share-column were retired with the repairs
   -- c02-1, c02-2, c02-4: such a disagreement is now reported without a class)
-  -- recorded deviation (known_findings: e2e/filter/pq-ingest-negated-term): a query with a NEGATED free-text term that was
-  -- already persistent when a segment was created gets that segment's results computed while it is ingested
-  -- (writer.applySearchSingleQuery), and that path ignores the negation of a match filter
-  let pqcls := if pqFilters.contains q.ftext && hasNegTerm q.filter false then ["pq-ingest-negated-term"] else []
-  let cls := (tri.flatMap (fun (_, (_, c)) => c) ++ pqcls).eraseDups
+  -- (repaired, patch c03-G: a query with a NEGATED free-text term that was already persistent when a segment was created
+  -- got that segment's results from writer.applySearchSingleQuery, which ignored the negation; the class label
+  -- pq-ingest-negated-term is no longer emitted, a recurrence is reported without a class)
+  let cls := (tri.flatMap (fun (_, (_, c)) => c)).eraseDups
   let must := (tri.filter (fun (_, (t, _)) => t == Tri.yes)).map (·.1)
   let may := (tri.filter (fun (_, (t, _)) => t == Tri.either)).map (·.1)
   match q.stages with
@@ -220,10 +211,9 @@ def answerB (blocks : List (List Event)) (q : Query) (pqFilters : List String :=
     let rows := showCells (tcBucket q.start q.end_ span)
     -- an event ON the end bound of the range whose end lies on the grid: own cell [end, end+span) is the other reading
     let rows2 := if atEnd && onGrid then " rows2=" ++ showCells (bucketOf q.start span) else ""
-    -- recorded deviation (known_findings: e2e/timechart/event-at-end-bound-off-grid): end bound NOT on the grid, an event
-    -- exactly on it: the engine reports it in a cell starting at end − span, which is not a cell of the grid
-    let rowsdev := if atEnd && !onGrid then " rowsdev=" ++ showCells (fun ts => if ts == q.end_ then q.end_ - span else bucketOf q.start span ts) else ""
-    s!"kind=tchart span={span} rows={rows}{rows2}{rowsdev} aggs={",".intercalate (aggs.map showAgg)} nmay={may.length} cls={",".intercalate cls}"
+    -- (repaired, patch c04-8: an event on an end bound that is NOT on the grid used to be reported in a cell starting at
+    -- end − span, which is no cell of the grid; the deviant answer is no longer printed, a recurrence is a plain mismatch)
+    s!"kind=tchart span={span} rows={rows}{rows2} aggs={",".intercalate (aggs.map showAgg)} nmay={may.length} cls={",".intercalate cls}"
   | _ => "kind=unsupported"
 
 /-- the answer over a plain event list (all events taken as one block; used by Oracle/C18E.lean) -/
@@ -231,15 +221,13 @@ def answer (evs : List Event) (q : Query) : String := answerB [evs] q
 
 def e2e (args : List String) : String :=
   -- split at the markers H and Q
-  let (cfg, r1) := args.span (· != "H")
+  let (_cfg, r1) := args.span (· != "H")
   let (hist, r2) := (r1.drop 1).span (fun t => t != "Q" && t != "H2")
   -- an optional second layout of the SAME events (H2 …) does not change the specification's answer
   let r2 := r2.dropWhile (· != "Q")
-  let qs := (r2.drop 1).filter (· != "w")
+  let qs := (r2.drop 1).filter (fun t => t != "w" && t != "pqcheck")
   match flushedBlocks hist, qs.mapM parseQuery with
-  | some blocks, some qs =>
-    let pqf := if cfg.contains "pqs=0" then [] else (hist.filter (·.startsWith "rq/")).map (fun t => (t.drop 3).toString)
-    " | ".intercalate (qs.map (fun q => answerB blocks q pqf))
+  | some blocks, some qs => " | ".intercalate (qs.map (answerB blocks))
   | _, _ => "bad-op"
 
 def handle (cmd : String) (args : List String) : Option String :=
